@@ -86,6 +86,7 @@ func (s *c18Shadow) on(ev vfHookEv) {
 }
 
 type c18Env struct {
+	nearWrap bool // the server's packet counter is moved close to 2^32 before the program starts
 	// option values shared by every server of the unit (the accept-loop idiom: one option list, many connections)
 	allocOpt   ServerOption
 	allocOptRS RequestServerOption
@@ -235,6 +236,10 @@ func c18Serve(u *vfUnit, e *c18Env, alloc bool, prog []c18Phase, buf int, shadow
 	if e.kind == vfRS {
 		cfg.H = e.store.Handlers(vfHandlerOpt{OpenFile: true, CmdAll: true, ListAll: true})
 	}
+	if e.nearWrap {
+		// a session that has already handled almost 2^32 packets: order ids wrap during the program
+		cfg.PacketCount = 0xFFFFFFFF - 60
+	}
 	rs, err := vfRawConnect(cfg, vfPipeOpts{Buf: buf}, true)
 	if err != nil {
 		u.Inconclusive("connect: %v", err)
@@ -242,6 +247,9 @@ func c18Serve(u *vfUnit, e *c18Env, alloc bool, prog []c18Phase, buf int, shadow
 	}
 	var out [][]byte
 	oid := uint32(1) // INIT
+	if e.nearWrap {
+		oid = cfg.PacketCount + 1 // INIT
+	}
 	for pi, ph := range prog {
 		base := rs.R.Count()
 		if e.kind == vfOS && len(ph) > 0 && ph[0].Type == rfReaddir {
@@ -324,6 +332,10 @@ func c18Run(u *vfUnit) {
 		if pi == 3 {
 			e.maxTx = []uint32{65536, 262144, 100000, 300000, 262131}[(u.Index/2)%5]
 			u.Count("programs_with_raised_max_payload", 1)
+		}
+		e.nearWrap = pi == 2
+		if e.nearWrap {
+			u.Count("programs_crossing_the_order_id_wrap", 1)
 		}
 		c18Fill(e, u)
 		prog := c18Program(r, e)
